@@ -1,5 +1,6 @@
 import AfkakProofs.Producer.RelLand
 import AfkakProofs.Producer.Truth
+import AfkakProofs.Producer.Once
 /-! Preservation of the state/summary relation by every step, and the per-step checks of the monitors
 `successAcked`, `retryOnlyFailed`, `attemptBound`. -/
 namespace Afkak.Producer
@@ -17,7 +18,8 @@ theorem retryOk_inv (retry : Bool) : ∀ t t' o, norm t = norm t' → retryOk re
   have e5 : t.batchTps = t'.batchTps := norm_field (·.batchTps) (fun _ => rfl) h
   have e6 : t.acked = t'.acked := norm_field (·.acked) (fun _ => rfl) h
   have e7 : t.lastP = t'.lastP := norm_field (·.lastP) (fun _ => rfl) h
-  cases o <;> simp only [retryOk, e2, e5, e6, e7]
+  have e1 : t.cur = t'.cur := norm_field (·.cur) (fun _ => rfl) h
+  cases o <;> simp only [retryOk, e1, e2, e5, e6, e7]
 
 theorem retryOk_triv (retry : Bool) : ∀ t o, isProduce o = false → retryOk retry t o = true := by
   intro t o h; cases o <;> simp_all [retryOk, isProduce]
@@ -44,7 +46,7 @@ theorem nonretry_checks (cfg : Cfg) (pre : Snap) (t : Track) (s : Step) (h : isR
   · apply checkObs_all_true; intro t o; cases o <;> simp [retryOk]
   · apply checkObs_all_true; intro t o; cases o <;> simp [attemptOk]; omega
 
-theorem fireOk_err (cfg : Cfg) (t : Track) (e : Ev) (s : Sid) (k : ErrKind) : fireOk cfg t e (.fire s (.err k)) = true := rfl
+theorem fireOk_err (cfg : Cfg) (pre : Snap) (t : Track) (e : Ev) (s : Sid) (k : ErrKind) : fireOk cfg pre t e (.fire s (.err k)) = true := rfl
 
 /-- a step that fires failures only passes the truthfulness check -/
 theorem acked_onlyErr (cfg : Cfg) (pre : Snap) (t : Track) (s : Step) (h : onlyErr s.obs) :
@@ -57,7 +59,7 @@ theorem acked_onlyErr (cfg : Cfg) (pre : Snap) (t : Track) (s : Step) (h : onlyE
       obtain ⟨k, hk⟩ := h sid out ho; subst hk; rfl
     | _ => rfl
   · have : ∀ (obs : List Ob) (tt : Track), onlyErr obs →
-        checkObs (fun tt o => fireOk cfg tt s.ev o) s.ev (isRetryStep t s.ev) tt obs = true := by
+        checkObs (fun tt o => fireOk cfg pre tt s.ev o) s.ev (isRetryStep t s.ev) tt obs = true := by
       intro obs
       induction obs with
       | nil => intro _ _; rfl
@@ -213,8 +215,8 @@ theorem rel_send (cfg : Cfg) (st : St) (t : Track) (pre : Snap) (sid : Sid) (top
   split
   · simpa [shapeOf, isShape] using h1
   · split
-    · have : shapeOf [Ob.fire sid (.err (.other 4))] = [] := by simp [shapeOf, isShape]
-      rw [this]
+    · have : ∀ k, shapeOf [Ob.fire sid (.err k)] = [] := by intro k; simp [shapeOf, isShape]
+      simp only [this, List.foldl_nil]
       exact h1.same rfl rfl rfl (Nat.le_refl _) rfl
     · simp only [doSend]
       obtain ⟨c1, _, c3⟩ := checkSendBatch_spec cfg (enqueue st sid topic key msgs)
@@ -261,10 +263,10 @@ theorem Rel.dropTid {cfg : Cfg} {st : St} {t : Track} (h : Rel cfg st t) (tid : 
     fun ls hp l hl x hpc hc => h.bo_nr ls hp l hl x hpc (List.mem_filter.mp hc).1, h.bo_stop, h.att, h.idle0⟩
   · intro rid b hp
     have a := h.sending rid b hp
-    exact ⟨a.cur, a.res, ⟨a.br.tps, a.br.nodup, a.br.live, a.br.lastP, a.br.prod, a.br.chain1⟩, a.chain, a.sub, a.nodup, a.ne, a.al⟩
+    exact ⟨a.cur, a.res, ⟨a.br.tps, a.br.nodup, a.br.live_sub, a.br.live_nodup, a.br.live_unacked, a.br.lastP, a.br.prod, a.br.chain1⟩, a.chain, a.sub, a.nodup, a.ne, a.al⟩
   · intro tid' b tps hp
     have a := h.retrying tid' b tps hp
-    refine ⟨List.mem_filter.mpr ⟨a.tid, ?_⟩, a.res, ⟨a.br.tps, a.br.nodup, a.br.live, a.br.lastP, a.br.prod, a.br.chain1⟩,
+    refine ⟨List.mem_filter.mpr ⟨a.tid, ?_⟩, a.res, ⟨a.br.tps, a.br.nodup, a.br.live_sub, a.br.live_nodup, a.br.live_unacked, a.br.lastP, a.br.prod, a.br.chain1⟩,
       a.chain, a.att, a.sub, a.nodup, a.nostop, a.ne, a.al, a.prev⟩
     simp only [decide_eq_true_eq]
     intro hc; subst hc; exact hne b tps hp
@@ -388,7 +390,7 @@ theorem rel_retry (cfg : Cfg) (st : St) (t : Track) (tid : Tid) (b : Batch) (tps
     refine ⟨h.stopped, ?_, ?_, ?_, ?_, fun x hx => h.rt_lt x (List.mem_filter.mp hx).1, ?_, ?_, ?_, by show 0 ≤ st.attempts + 1; have := h.att; omega, ?_⟩
     · intro rid' b' hp
       injection hp with e1 e2; subst e1; subst e2
-      refine ⟨rfl, rfl, ⟨a.br.tps, a.br.nodup, a.br.live, ?_, ?_, Nat.succ_le_succ (Nat.zero_le _)⟩, ?_, a.sub, a.nodup, a.ne, a.al⟩
+      refine ⟨rfl, rfl, ⟨a.br.tps, a.br.nodup, a.br.live_sub, a.br.live_nodup, a.br.live_unacked, ?_, ?_, Nat.succ_le_succ (Nat.zero_le _)⟩, ?_, a.sub, a.nodup, a.ne, a.al⟩
       · intro g hg
         by_cases hgt : g.tp ∈ tps
         · apply List.mem_append_left
@@ -410,8 +412,18 @@ theorem rel_retry (cfg : Cfg) (st : St) (t : Track) (tid : Tid) (b : Batch) (tps
     · intro _ ls hp; cases hp
     · intro hp; cases hp
   · obtain ⟨res, r1, r2⟩ := a.res
-    simp only [retryOk, r1, if_true, Bool.and_eq_true, beq_iff_eq, List.all_eq_true]
-    refine ⟨by rw [hmap, r2], ?_⟩
+    obtain ⟨rid0, cur0, c1, c2, c3, c4⟩ := a.prev
+    have hmap0 := payloadsFor_map_tp b cur0 a.br.nodup c2
+    simp only [retryOk, r1, c1, if_true, Bool.and_eq_true, List.all_eq_true]
+    refine ⟨?_, ?_⟩
+    · cases res with
+      | err k =>
+        simp only [Bool.and_eq_true, decide_eq_true_eq, List.all_eq_true]
+        rw [hmap, hmap0]
+        exact ⟨⟨a.nodup, fun tp h => by simpa using c3 tp h⟩, fun tp h => by simpa using c4 k r1 tp h⟩
+      | responses rs => simp only [beq_iff_eq]; rw [hmap]; exact r2
+      | failed rs fs => simp only [beq_iff_eq]; rw [hmap]; exact r2
+      | none => simp only [beq_iff_eq]; rw [hmap]; exact r2
     intro p hp
     obtain ⟨pg, pt⟩ := (mem_payloadsFor b tps p).mp hp
     obtain ⟨u1, u2⟩ := mem_lastP_unique h.lp_nodup (a.br.lastP p pg)
@@ -420,9 +432,7 @@ theorem rel_retry (cfg : Cfg) (st : St) (t : Track) (tid : Tid) (b : Batch) (tps
     · intro x hx
       have := (List.all_eq_true.mp u1) x hx
       simpa using this
-    have := a.sub p.tp pt
-    rw [a.br.live] at this
-    simpa using (List.mem_filter.mp this).2
+    simpa using a.br.live_unacked p.tp (a.sub p.tp pt)
   · simp only [attemptOk, if_true, decide_eq_true_eq]
     have := a.chain; have := a.att
     omega
@@ -492,16 +502,6 @@ open Afkak.Consts Afkak.Monitor.ProducerTrace Afkak.Monitor.C01 Afkak.Monitor.C0
 
 /-! ### the produce result arrives -/
 
-theorem popAcked_live (b : Batch) (rs : List Resp) (batchTps acked : List TP)
-    (h : b.live = batchTps.filter (· ∉ acked)) :
-    (b.popAcked rs).live = batchTps.filter (· ∉ ((rs.filter (·.error = 0)).map (·.tp) ++ acked)) := by
-  simp only [Batch.popAcked, h, List.filter_filter]
-  apply List.filter_congr
-  intro tp _
-  rw [Bool.eq_iff_iff]
-  simp only [Bool.and_eq_true, Bool.not_eq_true', List.any_eq_false, decide_eq_true_eq, List.mem_append,
-    List.mem_map, List.mem_filter, not_or, not_exists, not_and]
-
 theorem inj_of_nodup_map {α β : Type} (f : α → β) (l : List α) (h : (l.map f).Nodup) {a b : α}
     (ha : a ∈ l) (hb : b ∈ l) (hab : f a = f b) : a = b := by
   induction l with
@@ -518,128 +518,91 @@ theorem sublist_nodup_tps (rs : List Resp) (p : Resp → Bool) (h : (rs.map (·.
     ((rs.filter p).map (·.tp)).Nodup :=
   List.Nodup.sublist (List.Sublist.map _ List.filter_sublist) h
 
-/-- what a valid result reports failed is still live after the acknowledged payloads were popped -/
-theorem failedTps_live (b : Batch) (r : ProdRes) (hv : validResult b r = true) (hsub : ∀ tp ∈ b.current, tp ∈ b.live)
-    (hln : b.live.Nodup) :
-    (∀ tp ∈ failedTps (b.popAcked (respsOf r)).live r, tp ∈ (b.popAcked (respsOf r)).live) ∧
-    (failedTps (b.popAcked (respsOf r)).live r).Nodup := by
+/-- what a valid result reports failed: listed payloads of the attempt, each once, none of them acknowledged by it -/
+theorem failedTps_facts (b : Batch) (r : ProdRes) (hv : validResult b r = true) (hsub : ∀ tp ∈ b.current, tp ∈ b.live)
+    (hal : ∀ tp ∈ b.live, tp ∈ b.current) (hln : b.live.Nodup) :
+    (∀ tp ∈ failedTps b.live r, tp ∈ b.current) ∧ (failedTps b.live r).Nodup ∧
+    (∀ tp ∈ failedTps b.live r, tp ∉ ((respsOf r).filter (·.error = 0)).map (·.tp)) := by
   simp only [validResult, Bool.and_eq_true, List.all_eq_true, decide_eq_true_eq] at hv
   obtain ⟨hin, hnd⟩ := hv
-  have popmem : ∀ tp, tp ∈ b.live → (∀ x ∈ respsOf r, x.error = 0 → x.tp ≠ tp) → tp ∈ (b.popAcked (respsOf r)).live := by
-    intro tp h1 h2
-    simp only [Batch.popAcked, List.mem_filter, Bool.not_eq_true', List.any_eq_false, decide_eq_true_eq]
-    exact ⟨h1, fun x hx => h2 x hx.1 hx.2⟩
+  have uniq : ∀ (rs : List Resp), (rs.map (·.tp)).Nodup → ∀ tp ∈ (rs.filter (·.error ≠ 0)).map (·.tp),
+      tp ∉ (rs.filter (·.error = 0)).map (·.tp) := by
+    intro rs hn tp htp hc
+    obtain ⟨x, hx, hxt⟩ := List.mem_map.mp htp
+    obtain ⟨y, hy, hyt⟩ := List.mem_map.mp hc
+    obtain ⟨hx1, hx2⟩ := List.mem_filter.mp hx
+    obtain ⟨hy1, hy2⟩ := List.mem_filter.mp hy
+    have : y = x := inj_of_nodup_map (·.tp) rs hn hy1 hx1 (by rw [hyt, hxt])
+    subst this
+    simp at hx2 hy2; exact hx2 hy2
   cases r with
   | none => simp [failedTps]
   | err k =>
-    simp only [failedTps]
-    refine ⟨fun tp h => h, ?_⟩
-    simp only [Batch.popAcked]
-    exact List.Nodup.sublist List.filter_sublist hln
+    simp only [failedTps, respsOf, List.filter_nil, List.map_nil, List.not_mem_nil, not_false_eq_true, implies_true, and_true]
+    exact ⟨hal, hln⟩
   | responses rs =>
     simp only [failedTps, respsOf, ProdRes.tps] at *
-    refine ⟨?_, sublist_nodup_tps rs _ hnd⟩
+    refine ⟨?_, sublist_nodup_tps rs _ hnd, uniq rs hnd⟩
     intro tp htp
     obtain ⟨x, hx, hxt⟩ := List.mem_map.mp htp
-    obtain ⟨hx1, hx2⟩ := List.mem_filter.mp hx
-    apply popmem tp (hsub tp (hin tp (List.mem_map.mpr ⟨x, hx1, hxt⟩)))
-    intro y hy hye hyt
-    -- two responses for one topic/partition: the same response (tps are distinct), so error 0 ≠ error ≠ 0
-    have : y = x := inj_of_nodup_map (·.tp) rs hnd hy hx1 (by rw [hyt, hxt])
-    subst this
-    simp at hx2; exact hx2 hye
+    exact hin tp (List.mem_map.mpr ⟨x, (List.mem_filter.mp hx).1, hxt⟩)
   | failed rs fs =>
     simp only [failedTps, respsOf, ProdRes.tps] at *
     rw [List.nodup_append] at hnd
     obtain ⟨hn1, hn2, hdisj⟩ := hnd
-    refine ⟨?_, ?_⟩
+    refine ⟨?_, ?_, ?_⟩
     · intro tp htp
       rcases List.mem_append.mp htp with htp | htp
-      · apply popmem tp (hsub tp (hin tp (List.mem_append_left _ htp)))
-        intro y hy _ hyt
-        exact hdisj tp htp tp (List.mem_map.mpr ⟨y, hy, hyt⟩) rfl
+      · exact hin tp (List.mem_append_left _ htp)
       · obtain ⟨x, hx, hxt⟩ := List.mem_map.mp htp
-        obtain ⟨hx1, hx2⟩ := List.mem_filter.mp hx
-        apply popmem tp (hsub tp (hin tp (List.mem_append_right _ (List.mem_map.mpr ⟨x, hx1, hxt⟩))))
-        intro y hy hye hyt
-        have : y = x := inj_of_nodup_map (·.tp) rs hn2 hy hx1 (by rw [hyt, hxt])
-        subst this
-        simp at hx2; exact hx2 hye
+        exact hin tp (List.mem_append_right _ (List.mem_map.mpr ⟨x, (List.mem_filter.mp hx).1, hxt⟩))
     · rw [List.nodup_append]
       refine ⟨hn1, sublist_nodup_tps rs _ hn2, ?_⟩
       intro a ha c hc hac
       obtain ⟨x, hx, hxt⟩ := List.mem_map.mp hc
       exact hdisj a ha c (List.mem_map.mpr ⟨x, (List.mem_filter.mp hx).1, hxt⟩) hac
+    · intro tp htp
+      rcases List.mem_append.mp htp with htp | htp
+      · intro hc
+        obtain ⟨y, hy, hyt⟩ := List.mem_map.mp hc
+        exact hdisj tp htp tp (List.mem_map.mpr ⟨y, (List.mem_filter.mp hy).1, hyt⟩) rfl
+      · exact uniq rs hn2 tp htp
+
+/-- a payload the result acknowledges (error 0) is not among those it reports failed - given only that the result
+    names each payload at most once -/
+theorem acked_not_failed (l : List TP) (r : ProdRes) (hn : r.tps.Nodup) :
+    ∀ x ∈ respsOf r, x.error = 0 → x.tp ∉ failedTps l r := by
+  have uniq : ∀ (rs : List Resp), (rs.map (·.tp)).Nodup → ∀ x ∈ rs, x.error = 0 →
+      x.tp ∉ (rs.filter (·.error ≠ 0)).map (·.tp) := by
+    intro rs hn x hx he hc
+    obtain ⟨y, hy, hyt⟩ := List.mem_map.mp hc
+    obtain ⟨hy1, hy2⟩ := List.mem_filter.mp hy
+    have : y = x := inj_of_nodup_map (·.tp) rs hn hy1 hx hyt
+    subst this
+    simp at hy2; exact hy2 he
+  intro x hx he
+  cases r with
+  | none => simp [respsOf] at hx
+  | err k => simp [respsOf] at hx
+  | responses rs =>
+    simp only [respsOf] at hx
+    simp only [failedTps]
+    exact uniq rs hn x hx he
+  | failed rs fs =>
+    simp only [respsOf] at hx
+    simp only [ProdRes.tps] at hn
+    rw [List.nodup_append] at hn
+    obtain ⟨_, hn2, hdisj⟩ := hn
+    simp only [failedTps, List.mem_append, not_or]
+    exact ⟨fun hc => hdisj x.tp hc x.tp (List.mem_map_of_mem hx) rfl, uniq rs hn2 x hx he⟩
+
+theorem failedTps_self (l : List TP) (r : ProdRes) : failedTps l r = failedTps (failedTps l r) r := by
+  cases r <;> rfl
 
 end Afkak.Producer
 
 namespace Afkak.Producer
 open Afkak.Consts Afkak.Monitor.ProducerTrace Afkak.Monitor.C01 Afkak.Monitor.C09
-
-/-- if the result accounts for every payload of the attempt, and nothing unacknowledged was left out of the
-    attempt, then nothing unacknowledged is left out of the retry -/
-theorem retry_covers (b : Batch) (r : ProdRes) (acct : Bool) (hlive : ∀ tp ∈ b.live, tp ∈ b.groups.map (·.tp))
-    (hal : acct = true → ∀ tp ∈ b.live, tp ∈ b.current)
-    (hne : failedTps (b.popAcked (respsOf r)).live r ≠ []) :
-    (acct && accounts (b.payloadsFor b.current) r) = true →
-      ∀ tp ∈ (b.popAcked (respsOf r)).live, tp ∈ failedTps (b.popAcked (respsOf r)).live r := by
-  intro h tp htp
-  simp only [Bool.and_eq_true] at h
-  obtain ⟨ha, hacc⟩ := h
-  have htp' := htp
-  simp only [Batch.popAcked, List.mem_filter, Bool.not_eq_true', List.any_eq_false, decide_eq_true_eq] at htp'
-  obtain ⟨hl, hng⟩ := htp'
-  obtain ⟨g, hg, hgt⟩ := List.mem_map.mp (hlive tp hl)
-  have hgp : g ∈ b.payloadsFor b.current := (mem_payloadsFor b b.current g).mpr ⟨hg, by rw [hgt]; exact hal ha tp hl⟩
-  have resp_case : ∀ rs : List Resp, respsOf r = rs → ∀ resp ∈ rs, resp.tp = g.tp →
-      tp ∈ (rs.filter (·.error ≠ 0)).map (·.tp) := by
-    intro rs hrs resp hr hrt
-    by_cases he : resp.error = 0
-    · exfalso
-      rw [hrs] at hng
-      exact hng resp ⟨hr, he⟩ (by rw [hrt, hgt])
-    · exact List.mem_map.mpr ⟨resp, List.mem_filter.mpr ⟨hr, by simpa using he⟩, by rw [hrt, hgt]⟩
-  cases r with
-  | none => simp [failedTps] at hne
-  | err k => simpa [failedTps] using htp
-  | responses rs =>
-    cases rs with
-    | nil => simp [failedTps] at hne
-    | cons a l =>
-      simp only [accounts, List.all_eq_true, List.any_eq_true, decide_eq_true_eq] at hacc
-      obtain ⟨resp, hr, hrt⟩ := hacc g hgp
-      simp only [failedTps]
-      exact resp_case (a :: l) rfl resp hr hrt
-  | failed rs fs =>
-    simp only [accounts, List.all_eq_true, Bool.or_eq_true, List.any_eq_true, decide_eq_true_eq] at hacc
-    simp only [failedTps, List.mem_append]
-    rcases hacc g hgp with ⟨resp, hr, hrt⟩ | ⟨f, hf, hft⟩
-    · exact Or.inr (resp_case rs rfl resp hr hrt)
-    · exact Or.inl (List.mem_map.mpr ⟨f, hf, by rw [hft, hgt]⟩)
-
-/-- what is retried was in the attempt: the payloads a valid result names are the request's, and the
-    unacknowledged rest (a total failure) was all in the attempt if every result accounted -/
-theorem retry_sub (b : Batch) (r : ProdRes) (hv : validResult b r = true)
-    (hal : acct = true → ∀ tp ∈ (b.popAcked (respsOf r)).live, tp ∈ b.current) (ha : acct = true) :
-    ∀ tp ∈ failedTps (b.popAcked (respsOf r)).live r, tp ∈ b.current := by
-  simp only [validResult, Bool.and_eq_true, List.all_eq_true, decide_eq_true_eq] at hv
-  obtain ⟨hin, _⟩ := hv
-  intro tp htp
-  cases r with
-  | none => simp [failedTps] at htp
-  | err k => exact hal ha tp (by simpa [failedTps] using htp)
-  | responses rs =>
-    simp only [failedTps] at htp
-    obtain ⟨x, hx, hxt⟩ := List.mem_map.mp htp
-    exact hin tp (by simp only [ProdRes.tps]; exact List.mem_map.mpr ⟨x, (List.mem_filter.mp hx).1, hxt⟩)
-  | failed rs fs =>
-    simp only [failedTps, List.mem_append] at htp
-    apply hin tp
-    simp only [ProdRes.tps, List.mem_append]
-    rcases htp with h | h
-    · exact Or.inl h
-    · obtain ⟨x, hx, hxt⟩ := List.mem_map.mp h
-      exact Or.inr (List.mem_map.mpr ⟨x, (List.mem_filter.mp hx).1, hxt⟩)
 
 /-- the summary right after an effective completion event for the request in flight -/
 def completedTrack (t : Track) (ps : List Payload) (r : ProdRes) : Track :=
@@ -673,20 +636,27 @@ theorem rel_handled (cfg : Cfg) (s : St) (t : Track) (e : Ev) (rid : Rid) (b : B
   | retry d1 d2 d3 d4 d5 d6 d7 d8 =>
     rw [hfin.1 rfl]
     simp only [d8, List.foldl_cons, List.foldl_nil, trackOb, hc, if_true, completedTrack]
-    have hlive := popAcked_live b (respsOf r) t.batchTps t.acked a.br.live
-    have hln : b.live.Nodup := by
-      rw [a.br.live, a.br.tps]; exact List.Nodup.sublist List.filter_sublist a.br.nodup
-    obtain ⟨g1, g2⟩ := failedTps_live b r hv a.sub hln
+    obtain ⟨g1, g2, g3⟩ := failedTps_facts b r hv a.sub a.al a.br.live_nodup
+    have hkl : ∀ tp, tp ∈ (b.keep (failedTps b.live r)).live ↔ tp ∈ b.live ∧ tp ∈ failedTps b.live r := by
+      intro tp; simp only [Batch.keep, List.mem_filter, decide_eq_true_eq]
     refine ⟨by show t.stopped = _; rw [hstat.2.1]; exact h.stopped, ?_, ?_, ?_, h.lp_nodup, ?_, ?_, ?_, ?_, by rw [d3]; exact h.att, ?_⟩
     · intro rid' b' hp; rw [d1] at hp; cases hp
     · intro tid' b' tps' hp
       rw [d1] at hp; injection hp with e1 e2 e3; subst e1; subst e2; subst e3
-      refine ⟨List.mem_cons_self, ⟨r, rfl, by rw [← hlive]⟩, ⟨a.br.tps, a.br.nodup, hlive, a.br.lastP, a.br.prod, a.br.chain1⟩,
-        by rw [d3]; exact a.chain, by rw [d3]; exact d4, g1, g2, by rw [hstat.2.1]; exact d5, d2, ?_, ?_⟩
-      · exact retry_covers b r t.acct (fun tp htp => a.br.live_sub tp htp) a.al d2
-      · refine ⟨rid, b.current, a.cur, ?_⟩
-        intro hacc tp htp
-        exact retry_sub b r hv (fun hx tp htp => a.al hx tp ((List.mem_filter.mp htp).1)) (by simp only [Bool.and_eq_true] at hacc; exact hacc.1) tp htp
+      refine ⟨List.mem_cons_self, ⟨r, rfl, failedTps_self b.live r⟩,
+        ⟨a.br.tps, a.br.nodup, fun tp htp => a.br.live_sub tp ((hkl tp).mp htp).1,
+          List.Nodup.sublist List.filter_sublist a.br.live_nodup, ?_, a.br.lastP, a.br.prod, a.br.chain1⟩,
+        by rw [d3]; exact a.chain, by rw [d3]; exact d4, fun tp htp => (hkl tp).mpr ⟨a.sub tp (g1 tp htp), htp⟩, g2,
+        by rw [hstat.2.1]; exact d5, d2, fun tp htp => ((hkl tp).mp htp).2, ?_⟩
+      · intro tp htp hc
+        obtain ⟨l1, l2⟩ := (hkl tp).mp htp
+        rcases List.mem_append.mp hc with hc | hc
+        · exact g3 tp l2 hc
+        · exact a.br.live_unacked tp l1 hc
+      · refine ⟨rid, b.current, a.cur, fun tp htp => a.br.live_sub tp (a.sub tp htp), g1, ?_⟩
+        intro k hk tp htp
+        injection hk with hk; subst hk
+        exact a.sub tp htp
     · intro hq; rcases hq with hq | ⟨ls, hq⟩ <;> (rw [d1] at hq; cases hq)
     · intro x hx
       rw [d7]
@@ -711,14 +681,14 @@ theorem Same3.trackOb {a b : Track} (h : Same3 a b) (e : Ev) (r : Bool) (o : Ob)
     Same3 (trackOb e r a o) b := by
   cases o <;> simp_all [Same3, Afkak.Monitor.ProducerTrace.trackOb, isProduce]
 
-theorem fireOk_same3 (cfg : Cfg) (e : Ev) {a b : Track} (h : Same3 a b) (o : Ob) : fireOk cfg a e o = fireOk cfg b e o := by
+theorem fireOk_same3 (cfg : Cfg) (pre : Snap) (e : Ev) {a b : Track} (h : Same3 a b) (o : Ob) : fireOk cfg pre a e o = fireOk cfg pre b e o := by
   obtain ⟨h1, h2, h3⟩ := h
   cases o with
   | fire s out => cases out <;> simp only [fireOk, h1, h2, h3]
   | _ => rfl
 
-theorem checkObs_onlyErr (cfg : Cfg) (e : Ev) (r : Bool) (obs : List Ob) (tt : Track) (h : onlyErr obs) :
-    checkObs (fun tt o => fireOk cfg tt e o) e r tt obs = true := by
+theorem checkObs_onlyErr (cfg : Cfg) (pre : Snap) (e : Ev) (r : Bool) (obs : List Ob) (tt : Track) (h : onlyErr obs) :
+    checkObs (fun tt o => fireOk cfg pre tt e o) e r tt obs = true := by
   induction obs generalizing tt with
   | nil => rfl
   | cons o rest ih =>
@@ -728,14 +698,14 @@ theorem checkObs_onlyErr (cfg : Cfg) (e : Ev) (r : Bool) (obs : List Ob) (tt : T
     | fire sid out => obtain ⟨k, hk⟩ := h sid out List.mem_cons_self; subst hk; rfl
     | _ => rfl
 
-theorem checkObs_fire_split (cfg : Cfg) (e : Ev) (r : Bool) (A B : List Ob) (t1 tt : Track) (hs : Same3 tt t1)
-    (hA : ∀ o ∈ A, isProduce o = false) (hok : ∀ o ∈ A, fireOk cfg t1 e o = true) (hB : onlyErr B) :
-    checkObs (fun tt o => fireOk cfg tt e o) e r tt (A ++ B) = true := by
+theorem checkObs_fire_split (cfg : Cfg) (pre : Snap) (e : Ev) (r : Bool) (A B : List Ob) (t1 tt : Track) (hs : Same3 tt t1)
+    (hA : ∀ o ∈ A, isProduce o = false) (hok : ∀ o ∈ A, fireOk cfg pre t1 e o = true) (hB : onlyErr B) :
+    checkObs (fun tt o => fireOk cfg pre tt e o) e r tt (A ++ B) = true := by
   induction A generalizing tt with
-  | nil => exact checkObs_onlyErr cfg e r B tt hB
+  | nil => exact checkObs_onlyErr cfg pre e r B tt hB
   | cons o rest ih =>
     simp only [List.cons_append, checkObs, Bool.and_eq_true]
-    refine ⟨by rw [fireOk_same3 cfg e hs]; exact hok o List.mem_cons_self, ?_⟩
+    refine ⟨by rw [fireOk_same3 cfg pre e hs]; exact hok o List.mem_cons_self, ?_⟩
     exact ih _ (hs.trackOb e r o (hA o List.mem_cons_self)) (fun x hx => hA x (List.mem_cons_of_mem _ hx))
       (fun x hx => hok x (List.mem_cons_of_mem _ hx))
 
@@ -764,13 +734,35 @@ theorem handled_noProduce (cfg : Cfg) (s : St) (b : Batch) (r : ProdRes) :
   | resolved _ _ _ _ d5 => exact Or.inl d5
   | retry _ _ _ _ _ _ _ d8 => exact Or.inr ⟨_, _, d8⟩
 
+/-- the payloads of the attempt that a result reports failed are payloads of the batch, listed in `failedTps` -/
+theorem failedOf_sub (b : Batch) (r : ProdRes) (hsub : ∀ tp ∈ b.current, tp ∈ b.live) :
+    ∀ p ∈ failedOf (b.payloadsFor b.current) r, p ∈ b.groups ∧ p.tp ∈ failedTps b.live r := by
+  intro p hp
+  cases r with
+  | err k =>
+    obtain ⟨h1, h2⟩ := (mem_payloadsFor b b.current p).mp hp
+    exact ⟨h1, hsub _ h2⟩
+  | none =>
+    obtain ⟨h1, h2⟩ := List.mem_filter.mp hp
+    exact ⟨((mem_payloadsFor b b.current p).mp h1).1, List.contains_iff_mem.mp h2⟩
+  | responses rs =>
+    obtain ⟨h1, h2⟩ := List.mem_filter.mp hp
+    exact ⟨((mem_payloadsFor b b.current p).mp h1).1, List.contains_iff_mem.mp h2⟩
+  | failed rs fs =>
+    obtain ⟨h1, h2⟩ := List.mem_filter.mp hp
+    exact ⟨((mem_payloadsFor b b.current p).mp h1).1, List.contains_iff_mem.mp h2⟩
+
+/-- what the truthfulness check reads off the bookkeeping before the step -/
+def PreOk (pre : Snap) (st : St) : Prop := pre.attempts = st.attempts ∧ st.outstanding.Nodup
+
 /-- every Deferred fired by `_handle_send_response` passes the truthfulness check at the summary
     that has just taken the result -/
-theorem handled_fireOk (cfg : Cfg) (s : St) (t : Track) (e : Ev) (rid : Rid) (b : Batch) (r : ProdRes)
+theorem handled_fireOk (cfg : Cfg) (pre : Snap) (s : St) (t : Track) (e : Ev) (rid : Rid) (b : Batch) (r : ProdRes)
     (hcur : t.cur = some (rid, b.payloadsFor b.current)) (hprod : ∀ x ∈ b.allSids, x ∈ t.produced)
     (hv : validResult b r = true) (hc : completionOf e = some r)
-    (hk : match e with | .produceDone k _ => (k == rid) = true | _ => True) :
-    ∀ o ∈ (handleSendResponse cfg s b r).2.1, fireOk cfg (completedTrack t (b.payloadsFor b.current) r) e o = true := by
+    (hk : match e with | .produceDone k _ => (k == rid) = true | _ => True)
+    (hpre : PreOk pre s) (hsub : ∀ tp ∈ b.current, tp ∈ b.live) :
+    ∀ o ∈ (handleSendResponse cfg s b r).2.1, fireOk cfg pre (completedTrack t (b.payloadsFor b.current) r) e o = true := by
   obtain ⟨rf, _⟩ := handleSendResponse_spec cfg s b r
   intro o ho
   cases o with
@@ -793,23 +785,35 @@ theorem handled_fireOk (cfg : Cfg) (s : St) (t : Track) (e : Ev) (rid : Rid) (b 
       | produceDone k r' => simpa using hk
       | _ => trivial
     · subst e1
-      simp only [fireOk, hc, e2, beq_self_eq_true, Bool.true_and, Bool.and_eq_true, completedTrack,
-        List.contains_iff_mem, Option.isSome_some, true_and]
-      exact hprod sid e4
+      have hon := handleSendResponse_okNone cfg s b r hpre.2 sid ho
+      simp only [fireOk, hc, completedTrack, hcur, e2, beq_self_eq_true, Bool.true_and, Bool.and_eq_true,
+        List.contains_iff_mem, Bool.or_eq_true, decide_eq_true_eq, Bool.not_eq_true', List.any_eq_false]
+      refine ⟨hprod sid e4, ?_⟩
+      rcases hon with (h | h) | ⟨h1, h2⟩
+      · subst h; exact Or.inl rfl
+      · subst h; exact Or.inl rfl
+      · right
+        refine ⟨by rw [hpre.1]; exact h1, ?_⟩
+        intro p hp hc
+        obtain ⟨g1, g2⟩ := failedOf_sub b r hsub p hp
+        apply h2 p.tp g2
+        simp only [Batch.sidsOf, List.mem_flatMap, List.mem_filter, decide_eq_true_eq]
+        exact ⟨p, ⟨g1, rfl⟩, hc⟩
     · subst e1; rfl
   | _ => rfl
 
 /-- the fires of `finish ∘ handleSendResponse` satisfy the truthfulness check -/
-theorem acked_handled (cfg : Cfg) (s : St) (t : Track) (e : Ev) (rid : Rid) (b : Batch) (r : ProdRes)
+theorem acked_handled (cfg : Cfg) (pre : Snap) (s : St) (t : Track) (e : Ev) (rid : Rid) (b : Batch) (r : ProdRes)
     (hcur : t.cur = some (rid, b.payloadsFor b.current)) (hprod : ∀ x ∈ b.allSids, x ∈ t.produced)
     (hv : validResult b r = true) (hc : completionOf e = some r)
-    (hk : match e with | .produceDone k _ => (k == rid) = true | _ => True) :
-    checkObs (fun tt o => fireOk cfg tt e o) e false (completedTrack t (b.payloadsFor b.current) r)
+    (hk : match e with | .produceDone k _ => (k == rid) = true | _ => True)
+    (hpre : PreOk pre s) (hsub : ∀ tp ∈ b.current, tp ∈ b.live) :
+    checkObs (fun tt o => fireOk cfg pre tt e o) e false (completedTrack t (b.payloadsFor b.current) r)
       (finish cfg (handleSendResponse cfg s b r)).2 = true := by
   obtain ⟨tail, h1, h2⟩ := finish_onlyErr_tail cfg (handleSendResponse cfg s b r)
   rw [h1]
-  exact checkObs_fire_split cfg e false _ tail _ _ ⟨rfl, rfl, rfl⟩ (handled_noProduce cfg s b r)
-    (handled_fireOk cfg s t e rid b r hcur hprod hv hc hk) h2
+  exact checkObs_fire_split cfg pre e false _ tail _ _ ⟨rfl, rfl, rfl⟩ (handled_noProduce cfg s b r)
+    (handled_fireOk cfg pre s t e rid b r hcur hprod hv hc hk hpre hsub) h2
 
 end Afkak.Producer
 
@@ -857,7 +861,7 @@ theorem Rel.setStop {cfg : Cfg} {st : St} {t : Track} (h : Rel cfg st t)
   refine ⟨rfl, ?_, ?_, h.quiet, h.lp_nodup, h.rt_lt, h.bo_lt, h.bo_nr, ?_, h.att, h.idle0⟩
   · intro rid b hp
     have a := h.sending rid b hp
-    exact ⟨a.cur, a.res, ⟨a.br.tps, a.br.nodup, a.br.live, a.br.lastP, a.br.prod, a.br.chain1⟩, a.chain, a.sub, a.nodup, a.ne, a.al⟩
+    exact ⟨a.cur, a.res, ⟨a.br.tps, a.br.nodup, a.br.live_sub, a.br.live_nodup, a.br.live_unacked, a.br.lastP, a.br.prod, a.br.chain1⟩, a.chain, a.sub, a.nodup, a.ne, a.al⟩
   · intro tid b tps hp
     rcases hph with hq | ⟨rid, b', hq⟩ <;> (rw [show ({ st with stopping := true, tmeta := tm } : St).phase = st.phase from rfl, hq] at hp; cases hp)
   · intro _ ls hp
@@ -928,7 +932,7 @@ theorem trackEv_produceDone_off (pre : Snap) (t : Track) (rid : Rid) (r : ProdRe
 theorem rel_produceDone (cfg : Cfg) (st : St) (t : Track) (pre : Snap) (rid : Rid) (res : ProdRes) (h : Rel cfg st t) :
     Rel cfg (step cfg st (.produceDone rid res)).1
       (trackCore pre t (.produceDone rid res) (shapeOf (step cfg st (.produceDone rid res)).2)) ∧
-    successAckedStep cfg pre t (mkStep cfg st (.produceDone rid res)) = true := by
+    (PreOk pre st → successAckedStep cfg pre t (mkStep cfg st (.produceDone rid res)) = true) := by
   simp only [trackCore, isRetryStep, mkStep, step]
   cases hph : st.phase with
   | sending r b =>
@@ -945,13 +949,14 @@ theorem rel_produceDone (cfg : Cfg) (st : St) (t : Track) (pre : Snap) (rid : Ri
           completedTrack]
       rw [hte]
       refine ⟨rel_handled cfg st t _ r b res h hph hv rfl, ?_⟩
+      intro hpre
       simp only [successAckedStep, Bool.and_eq_true]
       refine ⟨?_, ?_⟩
       · rw [List.all_eq_true]; intro o _; cases o with
         | fire s out => cases out <;> simp [a.res]
         | _ => rfl
       · rw [hte]
-        exact acked_handled cfg st t _ r b res a.cur a.br.prod hv rfl (by simp)
+        exact acked_handled cfg pre st t _ r b res a.cur a.br.prod hv rfl (by simp) hpre a.sub
     · rw [if_neg hc]
       have hte : trackEv pre t (.produceDone rid res) = t := by
         simp only [trackEv, effective, completionOf, a.cur, a.res, hvf]
@@ -962,19 +967,19 @@ theorem rel_produceDone (cfg : Cfg) (st : St) (t : Track) (pre : Snap) (rid : Ri
         simp [this]
       rw [hte]
       refine ⟨by simpa [shapeOf, isShape] using h.same (st' := st) rfl rfl rfl (Nat.le_refl _) rfl, ?_⟩
-      exact acked_onlyErr cfg pre t _ (fun s o hm => by simp at hm)
+      exact fun _ => acked_onlyErr cfg pre t _ (fun s o hm => by simp at hm)
   | idle =>
     have hte := trackEv_produceDone_off pre t rid res (not_effective h (fun _ _ hc => by rw [hph] at hc; cases hc))
     rw [hte]
-    exact ⟨by simpa [shapeOf, isShape] using h, acked_onlyErr cfg pre t _ (fun s o hm => by simp at hm)⟩
+    exact ⟨by simpa [shapeOf, isShape] using h, fun _ => acked_onlyErr cfg pre t _ (fun s o hm => by simp at hm)⟩
   | lookups ls =>
     have hte := trackEv_produceDone_off pre t rid res (not_effective h (fun _ _ hc => by rw [hph] at hc; cases hc))
     rw [hte]
-    exact ⟨by simpa [shapeOf, isShape] using h, acked_onlyErr cfg pre t _ (fun s o hm => by simp at hm)⟩
+    exact ⟨by simpa [shapeOf, isShape] using h, fun _ => acked_onlyErr cfg pre t _ (fun s o hm => by simp at hm)⟩
   | retryWait tid b tps =>
     have hte := trackEv_produceDone_off pre t rid res (not_effective h (fun _ _ hc => by rw [hph] at hc; cases hc))
     rw [hte]
-    exact ⟨by simpa [shapeOf, isShape] using h, acked_onlyErr cfg pre t _ (fun s o hm => by simp at hm)⟩
+    exact ⟨by simpa [shapeOf, isShape] using h, fun _ => acked_onlyErr cfg pre t _ (fun s o hm => by simp at hm)⟩
 
 end Afkak.Producer
 
@@ -1070,10 +1075,10 @@ theorem rel_stop_quiet (cfg : Cfg) (st : St) (t : Track) (pre : Snap) (wipe : Bo
     (ho : onlyErr (cancelBatch cfg { st with stopping := true } wipe pout mouts).2) :
     Rel cfg (step cfg st (.stop wipe pout mouts)).1
       (trackCore pre t (.stop wipe pout mouts) (shapeOf (step cfg st (.stop wipe pout mouts)).2)) ∧
-    successAckedStep cfg pre t (mkStep cfg st (.stop wipe pout mouts)) = true := by
+    (PreOk pre st → successAckedStep cfg pre t (mkStep cfg st (.stop wipe pout mouts)) = true) := by
   simp only [trackCore, isRetryStep, mkStep, step_stop_valid cfg st wipe pout mouts hv,
     trackEv_stop_quiet pre t wipe pout mouts hq]
-  refine ⟨rel_doStop cfg st _ wipe pout mouts _ hr, acked_onlyErr cfg pre t _ ?_⟩
+  refine ⟨rel_doStop cfg st _ wipe pout mouts _ hr, fun _ => acked_onlyErr cfg pre t _ ?_⟩
   obtain ⟨tail, e1, e2⟩ := doStop_obs cfg st wipe pout mouts
   show onlyErr (doStop cfg st wipe pout mouts).2
   rw [e1]; exact onlyErr_append ho e2
@@ -1082,7 +1087,7 @@ theorem rel_stop (cfg : Cfg) (st : St) (t : Track) (pre : Snap) (wipe : Bool) (p
     (mouts : List (Rid × MetaRes)) (h : Rel cfg st t) :
     Rel cfg (step cfg st (.stop wipe pout mouts)).1
       (trackCore pre t (.stop wipe pout mouts) (shapeOf (step cfg st (.stop wipe pout mouts)).2)) ∧
-    successAckedStep cfg pre t (mkStep cfg st (.stop wipe pout mouts)) = true := by
+    (PreOk pre st → successAckedStep cfg pre t (mkStep cfg st (.stop wipe pout mouts)) = true) := by
   cases hph : st.phase with
   | idle =>
     have hv : stopValid st pout = true := by simp [stopValid, hph]
@@ -1128,7 +1133,7 @@ theorem rel_stop (cfg : Cfg) (st : St) (t : Track) (pre : Snap) (wipe : Bool) (p
         rw [cancelBatch_sending cfg { st with stopping := true } wipe none mouts rid b hph]
         simp only [cancelSending, shapeOf, List.filter_cons, isShape, List.filter_nil, List.foldl_nil]
         exact h.setStop (Or.inr ⟨rid, b, hph⟩) st.tmeta
-      refine ⟨rel_doStop cfg st _ wipe none mouts _ hr, acked_onlyErr cfg pre t _ ?_⟩
+      refine ⟨rel_doStop cfg st _ wipe none mouts _ hr, fun _ => acked_onlyErr cfg pre t _ ?_⟩
       obtain ⟨tail, e1, e2⟩ := doStop_obs cfg st wipe none mouts
       show onlyErr (doStop cfg st wipe none mouts).2
       rw [e1]
@@ -1154,6 +1159,7 @@ theorem rel_stop (cfg : Cfg) (st : St) (t : Track) (pre : Snap) (wipe : Bool) (p
           rw [hcb, shapeOf_cons_nonshape _ _ rfl]
           exact rel_handled cfg _ (stoppedTrack t) _ rid b r (h.setStop (Or.inr ⟨rid, b, hph⟩) _) hph hv rfl
         refine ⟨rel_doStop cfg st _ wipe (some r) mouts _ hr, ?_⟩
+        intro hpre
         simp only [successAckedStep, Bool.and_eq_true]
         refine ⟨?_, ?_⟩
         · rw [List.all_eq_true]; intro o _; cases o with
@@ -1167,7 +1173,7 @@ theorem rel_stop (cfg : Cfg) (st : St) (t : Track) (pre : Snap) (wipe : Bool) (p
           rw [e1, hcb]
           show checkObs _ _ _ _ ((Ob.cancelReq rid :: (finish cfg _).2) ++ tail) = true
           rw [g1, List.cons_append, List.append_assoc]
-          refine checkObs_fire_split cfg _ false
+          refine checkObs_fire_split cfg pre _ false
             (Ob.cancelReq rid :: (handleSendResponse cfg { st with stopping := true, tmeta := if wipe then [] else st.tmeta } b r).2.1)
             (tail2 ++ tail) _ _ ⟨rfl, rfl, rfl⟩ ?_ ?_ (onlyErr_append g2 e2)
           · intro o ho
@@ -1177,14 +1183,15 @@ theorem rel_stop (cfg : Cfg) (st : St) (t : Track) (pre : Snap) (wipe : Bool) (p
           · intro o ho
             rcases List.mem_cons.mp ho with ho | ho
             · rw [ho]; rfl
-            · exact handled_fireOk cfg _ (stoppedTrack t) (.stop wipe (some r) mouts) rid b r a.cur a.br.prod hv rfl trivial o ho
+            · exact handled_fireOk cfg pre { st with stopping := true, tmeta := if wipe then [] else st.tmeta } (stoppedTrack t) (.stop wipe (some r) mouts) rid b r a.cur a.br.prod hv rfl trivial
+                hpre a.sub o ho
       · have hsv : stopValid st (some r) = false := by simp [stopValid, hph, hv]
         have hte : trackEv pre t (.stop wipe (some r) mouts) = t := by
           have hvv : validResult b r = false := by simpa using hv
           simp only [trackEv, effective, completionOf, a.cur, a.res, hvf, hvv, Bool.false_eq_true, if_false]
         have hstep : step cfg st (.stop wipe (some r) mouts) = (st, [Ob.badOp]) := by simp [step, hsv]
         simp only [trackCore, isRetryStep, mkStep, hstep, hte]
-        exact ⟨by simpa [shapeOf, isShape] using h, acked_onlyErr cfg pre t _ (fun s o hm => by simp at hm)⟩
+        exact ⟨by simpa [shapeOf, isShape] using h, fun _ => acked_onlyErr cfg pre t _ (fun s o hm => by simp at hm)⟩
 
 end Afkak.Producer
 
@@ -1253,37 +1260,37 @@ theorem rel_timer (cfg : Cfg) (st : St) (t : Track) (pre : Snap) (tid : Tid) (h 
 /-- The relation is preserved by every step, and the step passes the three per-step checks. -/
 theorem rel_step (cfg : Cfg) (st : St) (t : Track) (pre : Snap) (e : Ev) (h : Rel cfg st t) :
     Rel cfg (step cfg st e).1 (track pre t (mkStep cfg st e)) ∧
-    successAckedStep cfg pre t (mkStep cfg st e) = true ∧
+    (PreOk pre st → successAckedStep cfg pre t (mkStep cfg st e) = true) ∧
     retryStep pre t (mkStep cfg st e) = true ∧ attemptStep cfg pre t (mkStep cfg st e) = true := by
   have core : ∀ (hr : Rel cfg (step cfg st e).1 (trackCore pre t e (shapeOf (step cfg st e).2))),
       Rel cfg (step cfg st e).1 (track pre t (mkStep cfg st e)) := fun hr => rel_via_core (s := mkStep cfg st e) hr
   cases e with
   | send sid topic key msgs =>
-    exact ⟨core (rel_send cfg st t pre sid topic key msgs h), acked_onlyErr cfg pre t _ (step_onlyErr cfg st _ trivial),
+    exact ⟨core (rel_send cfg st t pre sid topic key msgs h), fun _ => acked_onlyErr cfg pre t _ (step_onlyErr cfg st _ trivial),
       nonretry_checks cfg pre t _ rfl⟩
   | cancel sid =>
-    exact ⟨core (rel_cancel cfg st t pre sid h), acked_onlyErr cfg pre t _ (step_onlyErr cfg st _ trivial),
+    exact ⟨core (rel_cancel cfg st t pre sid h), fun _ => acked_onlyErr cfg pre t _ (step_onlyErr cfg st _ trivial),
       nonretry_checks cfg pre t _ rfl⟩
   | tick =>
-    exact ⟨core (rel_tick cfg st t pre h), acked_onlyErr cfg pre t _ (step_onlyErr cfg st _ trivial),
+    exact ⟨core (rel_tick cfg st t pre h), fun _ => acked_onlyErr cfg pre t _ (step_onlyErr cfg st _ trivial),
       nonretry_checks cfg pre t _ rfl⟩
   | timer tid =>
     obtain ⟨r1, r2, r3⟩ := rel_timer cfg st t pre tid h
-    exact ⟨core r1, acked_onlyErr cfg pre t _ (step_onlyErr cfg st _ trivial), r2, r3⟩
+    exact ⟨core r1, fun _ => acked_onlyErr cfg pre t _ (step_onlyErr cfg st _ trivial), r2, r3⟩
   | advance dt =>
-    exact ⟨core (rel_quiet_events cfg st t pre _ h trivial), acked_onlyErr cfg pre t _ (step_onlyErr cfg st _ trivial),
+    exact ⟨core (rel_quiet_events cfg st t pre _ h trivial), fun _ => acked_onlyErr cfg pre t _ (step_onlyErr cfg st _ trivial),
       nonretry_checks cfg pre t _ rfl⟩
   | metaSet topic err parts =>
-    exact ⟨core (rel_quiet_events cfg st t pre _ h trivial), acked_onlyErr cfg pre t _ (step_onlyErr cfg st _ trivial),
+    exact ⟨core (rel_quiet_events cfg st t pre _ h trivial), fun _ => acked_onlyErr cfg pre t _ (step_onlyErr cfg st _ trivial),
       nonretry_checks cfg pre t _ rfl⟩
   | metaReset topics =>
-    exact ⟨core (rel_quiet_events cfg st t pre _ h trivial), acked_onlyErr cfg pre t _ (step_onlyErr cfg st _ trivial),
+    exact ⟨core (rel_quiet_events cfg st t pre _ h trivial), fun _ => acked_onlyErr cfg pre t _ (step_onlyErr cfg st _ trivial),
       nonretry_checks cfg pre t _ rfl⟩
   | metaWipe =>
-    exact ⟨core (rel_quiet_events cfg st t pre _ h trivial), acked_onlyErr cfg pre t _ (step_onlyErr cfg st _ trivial),
+    exact ⟨core (rel_quiet_events cfg st t pre _ h trivial), fun _ => acked_onlyErr cfg pre t _ (step_onlyErr cfg st _ trivial),
       nonretry_checks cfg pre t _ rfl⟩
   | metaDone rid res =>
-    refine ⟨core ?_, acked_onlyErr cfg pre t _ (step_onlyErr cfg st _ trivial), nonretry_checks cfg pre t _ rfl⟩
+    refine ⟨core ?_, fun _ => acked_onlyErr cfg pre t _ (step_onlyErr cfg st _ trivial), nonretry_checks cfg pre t _ rfl⟩
     simp only [trackCore, isRetryStep, step, trackEv_plain pre t (.metaDone rid res) trivial]
     cases hph : st.phase with
     | lookups ls => exact rel_metaDoneLookups cfg st t ls rid res h hph
@@ -1306,25 +1313,25 @@ theorem rel_init (cfg : Cfg) : Rel cfg (St.init cfg) {} := by
   · intro _ ls hp; cases hp
 
 /-- per-step checks along the whole model trace -/
-theorem checks_from (cfg : Cfg) (evs : List Ev) (st : St) (t : Track) (pre : Snap) (h : Rel cfg st t) :
-    checkFrom (successAckedStep cfg) pre t (traceFrom cfg st evs) = true ∧
-    checkFrom retryStep pre t (traceFrom cfg st evs) = true ∧
-    checkFrom (attemptStep cfg) pre t (traceFrom cfg st evs) = true := by
-  induction evs generalizing st t pre with
+theorem checks_from (cfg : Cfg) (evs : List Ev) (st : St) (t : Track) (h : Rel cfg st t) (ho : OnceInv st t) :
+    checkFrom (successAckedStep cfg) (snapOf st) t (traceFrom cfg st evs) = true ∧
+    checkFrom retryStep (snapOf st) t (traceFrom cfg st evs) = true ∧
+    checkFrom (attemptStep cfg) (snapOf st) t (traceFrom cfg st evs) = true := by
+  induction evs generalizing st t with
   | nil => exact ⟨rfl, rfl, rfl⟩
   | cons e rest ih =>
-    obtain ⟨r1, r2, r3, r4⟩ := rel_step cfg st t pre e h
-    obtain ⟨i1, i2, i3⟩ := ih (step cfg st e).1 _ (snapOf (step cfg st e).1) r1
+    obtain ⟨r1, r2, r3, r4⟩ := rel_step cfg st t (snapOf st) e h
+    obtain ⟨i1, i2, i3⟩ := ih (step cfg st e).1 _ r1 (once_step cfg st t (snapOf st) e ho).2
     simp only [traceFrom, checkFrom, Bool.and_eq_true]
-    exact ⟨⟨r2, i1⟩, ⟨r3, i2⟩, ⟨r4, i3⟩⟩
+    exact ⟨⟨r2 ⟨rfl, ho.nodup⟩, i1⟩, ⟨r3, i2⟩, ⟨r4, i3⟩⟩
 
 theorem successAcked_model (cfg : Cfg) (evs : List Ev) : successAcked cfg (traceOf cfg evs) = true :=
-  (checks_from cfg evs _ _ _ (rel_init cfg)).1
+  (checks_from cfg evs _ _ (rel_init cfg) (once_init cfg)).1
 
 theorem retryOnlyFailed_model (cfg : Cfg) (evs : List Ev) : retryOnlyFailed cfg (traceOf cfg evs) = true :=
-  (checks_from cfg evs _ _ _ (rel_init cfg)).2.1
+  (checks_from cfg evs _ _ (rel_init cfg) (once_init cfg)).2.1
 
 theorem attemptBound_model (cfg : Cfg) (evs : List Ev) : attemptBound cfg (traceOf cfg evs) = true :=
-  (checks_from cfg evs _ _ _ (rel_init cfg)).2.2
+  (checks_from cfg evs _ _ (rel_init cfg) (once_init cfg)).2.2
 
 end Afkak.Producer
